@@ -157,6 +157,7 @@ func genHistory(r *rand.Rand, id string, mode string, plain bool) Case {
 				h.Ops = append(h.Ops, Op{Op: "rename", Path: p, To: np})
 				w.live[np] = w.live[p]
 				delete(w.live, p)
+				w.gone = append(w.gone, p) // the freed name may be taken by a NEW file later (it is another file)
 				touched[p], touched[np] = true, true
 			default:
 				continue
@@ -274,6 +275,7 @@ func gen(seed int64, n int, tier string) []interface{} {
 		h := genHistory(r, fmt.Sprintf("rand-%d-%d", seed, k), mode, k%4 == 0)
 		h.Tables = mode == "real" && r.Intn(3) == 0
 		h.Order = genOrder(r)
+		h.Decoy = r.Intn(4) == 0
 		out = append(out, h)
 	}
 	return out
